@@ -1153,14 +1153,30 @@ Definition sn_cfg : cfg := mkcfg [nb_machine; dm_machine; nb_machine] 0 0 vclock
 Definition sn_hist : list (list trigger_event * Z) :=
   [([TENormalSent; TEPaddingSent 1], 5%Z); ([TENormalSent; TEPaddingSent 0; TEBlockingBegin 1], 9%Z);
    ([TETunnelSent; TENormalSent; TEPaddingSent 2; TEBlockingEnd], 12%Z)].
+(* f64 bit patterns of moderate values (1.0, 1.44, 1.88, 2.6, ...) whose low 23 bits vary *)
 Definition sn_tp : tape :=
-  fun p => (N.of_nat p * 6364136223846793005 + 1442695040888963407) mod 2 ^ 64.
+  fun p => 4607182418800017408 + N.of_nat p * (1970324836974592 + 4000037).
 Definition sn_tp1 : tape := fun p => N.of_nat p * 1234567891234567 + 2 ^ 40.
 Definition outs_of (c : cfg) (tp : tape) (h : list (list trigger_event * Z)) : option (list (list taction)) :=
   match fnew c tp 0%Z with
   | Ok s0 => match run c tp s0 h with Ok (_, outs) => Some outs | _ => None end
   | _ => None
   end.
-Eval vm_compute in (det_machine_b dm_machine, no_signal_b sn_cfg, valid_cfg sn_cfg).
-Eval vm_compute in outs_of sn_cfg sn_tp sn_hist.
-Eval vm_compute in outs_of (solo_cfg sn_cfg dm_machine) sn_tp1 (proj_hist 1 sn_hist).
+
+Example sn_hyps : (det_machine_b dm_machine, no_signal_b sn_cfg, valid_cfg sn_cfg) = (true, true, true).
+Proof. vm_compute. reflexivity. Qed.
+
+(** the neighbours draw timeouts 1, 40, 72, 22, 100 and miss a probability-1/2
+    transition; machine 1 pads in every call *)
+Example sn_combined : outs_of sn_cfg sn_tp sn_hist =
+  Some [[TSendPadding 0 1 false false; TSendPadding 1 0 false false];
+        [TSendPadding 0 40 false false; TSendPadding 1 0 false false; TSendPadding 2 22 false false];
+        [TSendPadding 0 72 false false; TSendPadding 1 0 false false; TSendPadding 2 100 false false]].
+Proof. vm_compute. reflexivity. Qed.
+
+Example sn_solo : outs_of (solo_cfg sn_cfg dm_machine) sn_tp1 (proj_hist 1 sn_hist) =
+  Some [[TSendPadding 0 0 false false]; [TSendPadding 0 0 false false]; [TSendPadding 0 0 false false]].
+Proof. vm_compute. reflexivity. Qed.
+
+Print Assumptions solo_equals_combined_full.
+Print Assumptions solo_equals_combined_full_total.
